@@ -684,6 +684,23 @@ C07(e, pre, post, mon) ==
   ELSE {}
 
 ---------------------------------------------------------------------------
+(* C06 - a mempool check works on a scratch view: nothing block execution reads may change *)
+
+C06(e, pre, post) ==
+  IF e.ev = "CheckTx" THEN
+      If(pre.accts # post.accts \/ pre.delegs # post.delegs \/ pre.frozen # post.frozen \/ pre.rewards # post.rewards
+           \/ pre.props # post.props \/ pre.fprops # post.fprops,
+         "C06: a mempool check changed ledger contents visible to block execution")
+      \cup If(pre.gov # post.gov \/ pre.govPending # post.govPending \/ pre.govLedger # post.govLedger \/ pre.feeSum # post.feeSum,
+              "C06: a mempool check changed governance parameters or the block's fee total")
+      \cup If(pre.vol.limiter # post.vol.limiter \/ pre.vol.lastVals # post.vol.lastVals,
+              "C06: a mempool check consumed the block's stake-change limits or changed the reported validator set")
+      \cup If(HasEvm(pre) /\ HasEvm(post) /\ pre.evm # post.evm, "C06: a mempool check changed contract code or storage")
+      \cup If("evmSynced" \in DOMAIN pre.vol /\ "evmSynced" \in DOMAIN post.vol /\ pre.vol.evmSynced # post.vol.evmSynced,
+              "C06: a mempool check left accounts marked as copied into the EVM state of the block")
+  ELSE {}
+
+---------------------------------------------------------------------------
 (* C09 - no panic *)
 
 C09(e) ==
